@@ -1,7 +1,14 @@
 import Marwood.Store.VectorOps
 /-!
-# `vm/compare.rs` (after the `fix:` commit 77f2b17): `eqv` and `equal`, and the predicates of
-`predicate.rs` that the prelude uses
+# `vm/compare.rs` (after the `fix:` commits 77f2b17 and dfd9e81): `eqv` and `equal`, and the
+predicates of `predicate.rs` that the prelude uses
+
+`equal` (dfd9e81) threads a set of pairs of heap locations — the pairs and vectors whose comparison has
+begun — through `equal_seen` / `compare_pair` / `compare_vector` and answers `#t` for a pair of
+locations it meets again, so it terminates on circular structure (`Lemmas/EqualTotal.lean`); the
+functions before that repair are kept as `Pinned.equal` … (they diverge on circular structure,
+`Proofs/C06.equal_circular_diverges`; where they terminate the repaired ones give the same answer,
+`Lemmas/EqualAgree.lean`).
 -/
 namespace Marwood.Store
 open Outcome
@@ -30,8 +37,10 @@ def eqv (s : Store) (l r : VCell) : Outcome Bool :=
     let r' ← derefArg s r
     eqvCells s l' r'
 
+/-! ## `equal` before the repair dfd9e81 -/
+namespace Pinned
 mutual
-/-- `Vm::equal` -/
+/-- `Vm::equal` as pinned -/
 def equal : Nat → Store → VCell → VCell → Outcome Bool
   | 0, _, _, _ => .diverge
   | f+1, s, l, r => do
@@ -74,6 +83,96 @@ def compareVector : Nat → Store → List VCell → List VCell → Outcome Bool
     if !(← equal f s x y) then .ok false
     else compareVector f s xs ys
 end
+end Pinned
+
+/-! ## `equal` after the repair -/
+
+/-- the `HashSet<(usize, usize)>` of `equal_seen`: pairs of heap locations whose comparison has begun.
+    Only `insert` is ever applied to it, so a list with a membership test carries all that is observable. -/
+abbrev Seen := List (Nat × Nat)
+
+/-- `seen.insert((a, b))`: `none` when the pair of locations was already there (`insert` answers
+    `false`), otherwise the extended set -/
+def Seen.visit (seen : Seen) (a b : Nat) : Option Seen :=
+  if seen.contains (a, b) then none else some ((a, b) :: seen)
+
+/-- `if let Some(locations) = locations { seen.insert(locations) }` where `locations` is `Some` exactly
+    when both arguments of `equal_seen` were references -/
+def Seen.record (seen : Seen) : VCell → VCell → Option Seen
+  | .ptr a, .ptr b => seen.visit a b
+  | _, _ => some seen
+
+mutual
+/-- `Vm::equal_seen`; the second component is `seen` as the call leaves it -/
+def equalSeen : Nat → Store → Seen → VCell → VCell → Outcome (Bool × Seen)
+  | 0, _, _, _, _ => .diverge
+  | f+1, s, seen, l, r => do
+    if (← eqv s l r) then .ok (true, seen)
+    else do
+      let l' ← derefArg s l
+      let r' ← derefArg s r
+      match l', r' with
+      | .pair _ _, .pair _ _ =>
+        match seen.record l r with
+        | none => .ok (true, seen)                          -- met again: settled elsewhere
+        | some seen' => comparePairSeen f s seen' l' r'
+      | .vec i, .vec j =>
+        match seen.record l r with
+        | none => .ok (true, seen)
+        | some seen' => do
+          let xs ← s.vecGet i
+          let ys ← s.vecGet j
+          if xs.length != ys.length then .ok (false, seen') else compareVectorSeen f s seen' xs ys
+      | .str i, .str j => do
+        let a ← s.strGet i
+        let b ← s.strGet j
+        .ok (a == b, seen)
+      | _, _ => do .ok (← eqv s l' r', seen)
+
+/-- `Vm::compare_pair`: walks both spines, `equal_seen` on the cars; the locations of the two next
+    pairs are recorded before the loop goes round -/
+def comparePairSeen : Nat → Store → Seen → VCell → VCell → Outcome (Bool × Seen)
+  | 0, _, _, _, _ => .diverge
+  | f+1, s, seen, l, r =>
+    if !l.isPair || !r.isPair then equalSeen f s seen l r
+    else do
+      let lcar ← l.asCar
+      let rcar ← r.asCar
+      let (b, seen1) ← equalSeen f s seen lcar rcar
+      if !b then .ok (false, seen1)
+      else do
+        let lcdr ← l.asCdr
+        let rcdr ← r.asCdr
+        let l' ← s.get lcdr
+        let r' ← s.get rcdr
+        if l'.isPair && r'.isPair then
+          match seen1.visit (← lcdr.asPtr) (← rcdr.asPtr) with
+          | none => .ok (true, seen1)
+          | some seen2 => comparePairSeen f s seen2 l' r'
+        else comparePairSeen f s seen1 l' r'
+
+/-- the loop of `Vm::compare_vector` (lengths already known to be equal) -/
+def compareVectorSeen : Nat → Store → Seen → List VCell → List VCell → Outcome (Bool × Seen)
+  | 0, _, _, _, _ => .diverge
+  | _+1, _, seen, [], _ => .ok (true, seen)
+  | _+1, _, _, _ :: _, [] => .panic "compare_vector: unwrap on None"
+  | f+1, s, seen, x :: xs, y :: ys => do
+    let (b, seen1) ← equalSeen f s seen x y
+    if !b then .ok (false, seen1)
+    else compareVectorSeen f s seen1 xs ys
+end
+
+/-- `Vm::equal`: `equal_seen` with a fresh set -/
+def equal (fuel : Nat) (s : Store) (l r : VCell) : Outcome Bool := do
+  let (b, _) ← equalSeen fuel s [] l r
+  .ok b
+
+/-- fuel (= nesting of model calls) that `equal` never exhausts, whatever the store holds
+    (`Lemmas/EqualTotal.equal_total`): every call level either records a new pair of locations — there
+    are `|cells|²` of them — or is one of at most `maxVecLen + 5` levels between two such records -/
+def maxVecLen (s : Store) : Nat := s.vecs.foldl (fun n v => max n v.length) 0
+
+def equalFuel (s : Store) : Nat := s.cells.length * s.cells.length * (maxVecLen s + 5) + 1
 
 /-- `eq?`, `eqv?` (both call `Vm::eqv`; the arguments are popped right-to-left) -/
 def eqvB (s : Store) : List VCell → Res
